@@ -3,6 +3,8 @@
    constant reflected from the compiled crate (gen/Consts.v), regenerated on every run. *)
 From Brc.Model Require Import Base History Table BlockTable.
 From Brc.Proofs Require Import HistoryP KvP TableP.
+From Brc.Model Require Tie13.
+From Brc.Proofs Require Tie13P.
 From BrcGen Require Import Consts.
 
 (* The property text fixes the numbers: a 10-block window, at most 11 versions. *)
@@ -127,3 +129,27 @@ Qed.
 (* assumptions of the theorems above that had no report next to them *)
 Print Assumptions C13_window_pinned.
 Print Assumptions C13_table_deep_rollback_refuted.
+
+(* ---------------------------------------------------------------------------------------
+   The tie, as theorems.  [Tie13.h_check] / [Tie13.t_check] are the executable checkers the
+   correspondence run evaluates on every recorded case (operations executed on the real
+   BlockHistoryCacheData / BlockCachedDatabase, and what the implementation reported after
+   each).  If a case without panics is accepted, the model runs the whole sequence without
+   error, the implementation's last report of the history entries IS the model's state, and
+   the model's observation of the table after the run equals the implementation's last report
+   (point reads, range scans in order, full scan) - so the refinement theorems above speak
+   about what the implementation answered. *)
+Theorem C13_accepted_history_case_is_the_model_run :
+  forall ops h (es : list Tie13.ohist),
+    Tie13.h_check W h ops (map Some es) = true ->
+    exists h', h_run N.eqb W h ops = Ok h' /\ h' = last es h /\ length es = length ops.
+Proof. exact (Tie13P.h_check_accepts W). Qed.
+Print Assumptions C13_accepted_history_case_is_the_model_run.
+
+Theorem C13_accepted_table_case_is_the_model_run :
+  forall keys ranges ops t (es : list Tie13.tobs) e,
+    Tie13.t_check W t keys ranges ops (map Some (es ++ [e])) = true ->
+    exists t' m, t_run N.eqb W t ops = Ok t' /\ Tie13.t_observe t' keys ranges = Some m /\
+                 Tie13.tobs_eqb m e = true.
+Proof. exact (Tie13P.t_check_accepts W). Qed.
+Print Assumptions C13_accepted_table_case_is_the_model_run.
